@@ -752,3 +752,280 @@ Proof.
   unfold w_inserts. apply Forall_forall. intros s Hs. apply in_flat_map in Hs. destruct Hs as [x [Hx Hs]].
   destruct (Hrow x Hx) as [_ Hf]. rewrite Forall_forall in Hf. apply Hf. exact Hs.
 Qed.
+(* 9. the responder's pass of the replay: same tables at its start, a different memo *)
+
+(* same tables, same gatekeeper map (as a map), same reorged set *)
+Definition mem_eq (tA tB : tower) : Prop :=
+  db_of tB = db_of tA /\ (forall u, aget (gk_users tB) u = aget (gk_users tA) u) /\ reorged tB = reorged tA.
+
+(* the fields the responder reads besides the tables *)
+Definition eng (t : tower) := (cfg t, gk_height t, r_index t, car_height t, car_memo t).
+
+Lemma db_of_eq_fields tA tB : db_of tB = db_of tA -> db_users tB = db_users tA /\ db_apps tB = db_apps tA /\ db_trks tB = db_trks tA.
+Proof. unfold db_of. intros H. inversion H. auto. Qed.
+
+Lemma cc_sim le txids h : forall snap tA tB comp cA tA' cB tB',
+  mem_eq tA tB ->
+  check_conf_loop le txids h snap tA comp = Ok cA tA' -> check_conf_loop le txids h snap tB comp = Ok cB tB' ->
+  cA = cB /\ mem_eq tA' tB' /\ eng tA' = eng tA /\ eng tB' = eng tB.
+Proof.
+  induction snap as [|k snap IH]; intros tA tB comp cA tA' cB tB' HM; cbn [check_conf_loop].
+  - intros H1 H2. inversion H1; inversion H2; subst. auto.
+  - destruct HM as [Hd [Hg Hr]]. destruct (db_of_eq_fields _ _ Hd) as [Eu [Ea Et]].
+    rewrite Et, Hr. destruct (memN (t_penalty k) txids).
+    + destruct (find_trk (db_trks tA) (trk_uuid k)); [|discriminate].
+      intros H1 H2.
+      assert (HM' : mem_eq (set_reorged (set_trk_status tA (trk_uuid k) h true) (filter (fun u => negb (uuid_eqb u (trk_uuid k))) (reorged (set_trk_status tA (trk_uuid k) h true))))
+                           (set_reorged (set_trk_status tB (trk_uuid k) h true) (filter (fun u => negb (uuid_eqb u (trk_uuid k))) (reorged (set_trk_status tB (trk_uuid k) h true))))).
+      { unfold mem_eq. cbn [reorged set_reorged set_trk_status set_db_trks gk_users]. rewrite Hr. repeat split; [|exact Hg].
+        unfold db_of. cbn [db_users db_apps db_trks set_reorged set_trk_status set_db_trks]. rewrite Eu, Ea, Et. reflexivity. }
+      destruct (IH _ _ _ _ _ _ _ HM' H1 H2) as [A [B [C D]]]. split; [exact A|split; [exact B|split; [exact C|exact D]]].
+    + destruct (mem_uuid (trk_uuid k) (reorged tA)); [apply IH; repeat split; assumption|].
+      destruct (t_conf k); apply IH; repeat split; assumption.
+Qed.
+
+Lemma aget_put {V} (m : amap V) u (v : V) k : aget ((u, v) :: aremove m u) k = if N.eqb k u then Some v else aget m k.
+Proof. cbn [aget]. destruct (N.eqb k u) eqn:E; [reflexivity|]. rewrite aget_remove, E. reflexivity. Qed.
+
+Lemma refund_sim : forall us tA tB tA' tB',
+  mem_eq tA tB -> refund_loop tA us = Ok tt tA' -> refund_loop tB us = Ok tt tB' ->
+  mem_eq tA' tB' /\ eng tA' = eng tA /\ eng tB' = eng tB.
+Proof.
+  induction us as [|uuid us IH]; intros tA tB tA' tB' HM; cbn [refund_loop].
+  - intros H1 H2. inversion H1; inversion H2; subst. auto.
+  - destruct HM as [Hd [Hg Hr]]. destruct (db_of_eq_fields _ _ Hd) as [Eu [Ea Et]]. rewrite Ea.
+    destruct (find_app (db_apps tA) uuid) as [a|]; [|discriminate].
+    unfold gk_get. rewrite Hg. destruct (aget (gk_users tA) (a_user a)) as [ui|]; [|discriminate].
+    destruct (u32_add (u_slots ui) (slots_of (b_len (a_blob a)))) as [s|]; [|discriminate].
+    intros H1 H2.
+    assert (HM' : mem_eq (p_refund_user tA (a_user a) ui s) (p_refund_user tB (a_user a) ui s)).
+    { unfold mem_eq, p_refund_user, db_update_user_slots, gk_put. repeat split.
+      - unfold db_of. cbn [db_users db_apps db_trks set_db_users set_gk_users]. rewrite Eu, Ea, Et. reflexivity.
+      - intros u. cbn [gk_users set_db_users set_gk_users]. rewrite !aget_put, Hg. reflexivity.
+      - exact Hr. }
+    destruct (IH _ _ _ _ HM' H1 H2) as [B [C D]]. split; [exact B|split; [exact C|exact D]].
+Qed.
+
+Lemma delete_sim tA tB us refund tA' tB' :
+  mem_eq tA tB -> gk_delete_appointments tA us refund = Ok tt tA' -> gk_delete_appointments tB us refund = Ok tt tB' ->
+  mem_eq tA' tB' /\ eng tA' = eng tA /\ eng tB' = eng tB.
+Proof.
+  intros HM. unfold gk_delete_appointments. destruct refund.
+  - destruct (refund_loop tA us) as [[] tA1|] eqn:E1; cbn [bind]; [|discriminate].
+    destruct (refund_loop tB us) as [[] tB1|] eqn:E2; cbn [bind]; [|discriminate].
+    destruct (refund_sim us tA tB tA1 tB1 HM E1 E2) as [[Hd [Hg Hr]] [C D]].
+    intros H1 H2. inversion H1; inversion H2; subst. split; [|split; [rewrite <- C|rewrite <- D]; reflexivity].
+    destruct (db_of_eq_fields _ _ Hd) as [Eu [Ea Et]].
+    unfold mem_eq. repeat split; [|exact Hg|exact Hr]. unfold db_of, db_delete_apps.
+    cbn [db_users db_apps db_trks set_db_apps set_db_trks]. rewrite Eu, Ea, Et. reflexivity.
+  - intros H1 H2. inversion H1; inversion H2; subst. split; [|split; reflexivity].
+    destruct HM as [Hd [Hg Hr]]. destruct (db_of_eq_fields _ _ Hd) as [Eu [Ea Et]].
+    unfold mem_eq. repeat split; [|exact Hg|exact Hr]. unfold db_of, db_delete_apps.
+    cbn [db_users db_apps db_trks set_db_apps set_db_trks]. rewrite Eu, Ea, Et. reflexivity.
+Qed.
+
+(* --- the stale phase: tables related up to the stamp --- *)
+Definition up_eq (tA tB : tower) : Prop :=
+  db_users tB = db_users tA /\ db_apps tB = db_apps tA /\ map trk_nostamp (db_trks tB) = map trk_nostamp (db_trks tA).
+
+Lemma rejected_height_indep t t' a : status_rejected (send_status t a) = status_rejected (send_status t' a).
+Proof. unfold send_status. destruct a; [reflexivity|]. repeat (destruct (Z.eqb _ _); try reflexivity). Qed.
+
+(* what the memo holds: never ConfirmedIn, and rejected exactly when the node rejects *)
+Definition memo_sound (sc : script) (t : tower) : Prop :=
+  forall tx r, aget (car_memo t) tx = Some r ->
+    status_rejected r = status_rejected (send_status t (snd (script_get sc tx))) /\ forall hh, r <> ConfirmedIn hh.
+
+Lemma send_sound sc t tx :
+  memo_sound sc t ->
+  status_rejected (fst (send_transaction sc t tx)) = status_rejected (send_status t (snd (script_get sc tx))) /\
+  (forall hh, fst (send_transaction sc t tx) <> ConfirmedIn hh) /\
+  memo_sound sc (snd (send_transaction sc t tx)) /\
+  db_of (snd (send_transaction sc t tx)) = db_of t /\ car_height (snd (send_transaction sc t tx)) = car_height t.
+Proof.
+  intros Hs. unfold send_transaction. destruct (aget (car_memo t) tx) as [r|] eqn:E; cbn [fst snd].
+  - destruct (Hs tx r E) as [H1 H2]. split; [exact H1|]. split; [exact H2|]. split; [exact Hs|]. split; reflexivity.
+  - split; [reflexivity|]. split; [intros hh; apply send_status_not_conf|]. split; [|split; reflexivity].
+    intros tx' r. cbn [car_memo set_car_memo log_rpc set_rpc_log aget]. destruct (N.eqb tx' tx) eqn:Ex.
+    + apply N.eqb_eq in Ex. subst tx'. intros H; inversion H; subst. split; [apply rejected_height_indep|intros hh; apply send_status_not_conf].
+    + intros H. destruct (Hs tx' r H) as [H1 H2]. split; [rewrite H1; apply rejected_height_indep|exact H2].
+Qed.
+
+Lemma nostamp_uuid k : trk_uuid (trk_nostamp k) = trk_uuid k.
+Proof. unfold trk_nostamp. destruct (t_conf k); reflexivity. Qed.
+Lemma nostamp_penalty k : t_penalty (trk_nostamp k) = t_penalty k.
+Proof. unfold trk_nostamp. destruct (t_conf k); reflexivity. Qed.
+
+Lemma find_trk_nostamp : forall lA lB u,
+  map trk_nostamp lB = map trk_nostamp lA ->
+  match find_trk lA u, find_trk lB u with
+  | Some kA, Some kB => t_penalty kB = t_penalty kA
+  | None, None => True
+  | _, _ => False
+  end.
+Proof.
+  induction lA as [|a lA IH]; intros [|b lB] u H; try discriminate; [exact I|].
+  cbn [map] in H. inversion H as [[H1 H2]]. unfold find_trk. cbn [find].
+  assert (Eu : trk_uuid b = trk_uuid a) by (rewrite <- (nostamp_uuid a), <- (nostamp_uuid b), H1; reflexivity).
+  rewrite Eu. destruct (uuid_eqb (trk_uuid a) u).
+  - rewrite <- (nostamp_penalty a), <- (nostamp_penalty b), H1. reflexivity.
+  - apply (IH lB u H2).
+Qed.
+
+Lemma set_status_nostamp u hA hB : forall lA lB,
+  map trk_nostamp lB = map trk_nostamp lA ->
+  map trk_nostamp (map (fun k => if uuid_eqb (trk_uuid k) u then mk_trk (t_loc k) (t_user k) (t_dispute k) (t_penalty k) hB false else k) lB) =
+  map trk_nostamp (map (fun k => if uuid_eqb (trk_uuid k) u then mk_trk (t_loc k) (t_user k) (t_dispute k) (t_penalty k) hA false else k) lA).
+Proof.
+  induction lA as [|a lA IH]; intros [|b lB] H; try discriminate; [reflexivity|].
+  cbn [map] in *. inversion H as [[H1 H2]]. f_equal; [|apply IH; exact H2].
+  assert (Eu : trk_uuid b = trk_uuid a) by (rewrite <- (nostamp_uuid a), <- (nostamp_uuid b), H1; reflexivity).
+  rewrite Eu. destruct (uuid_eqb (trk_uuid a) u); [|exact H1].
+  unfold trk_nostamp in *. cbn [t_conf t_loc t_user t_dispute t_penalty].
+  destruct (t_conf a), (t_conf b); inversion H1; try reflexivity; try congruence;
+    destruct a, b; cbn in *; congruence.
+Qed.
+
+Lemma filter_nostamp (q : N * N -> bool) : forall lA lB,
+  map trk_nostamp lB = map trk_nostamp lA ->
+  map trk_nostamp (filter (fun k => q (trk_uuid k)) lB) = map trk_nostamp (filter (fun k => q (trk_uuid k)) lA).
+Proof.
+  induction lA as [|a lA IH]; intros [|b lB] H; try discriminate; [reflexivity|].
+  cbn [map filter] in *. inversion H as [[H1 H2]].
+  assert (Eu : trk_uuid b = trk_uuid a) by (rewrite <- (nostamp_uuid a), <- (nostamp_uuid b), H1; reflexivity).
+  rewrite Eu. destruct (q (trk_uuid a)); cbn [map]; [f_equal; [exact H1|]|]; apply IH; exact H2.
+Qed.
+
+Definition rej_stable (t : tower) (sc1 sc2 : script) : Prop :=
+  forall tx, status_rejected (send_status t (snd (script_get sc2 tx))) = status_rejected (send_status t (snd (script_get sc1 tx))).
+
+Lemma stale_sim sc1 sc2 h : forall us tA tB rej rA tA' rB tB',
+  up_eq tA tB -> memo_sound sc1 tA -> memo_sound sc2 tB -> rej_stable tA sc1 sc2 ->
+  stale_loop sc1 h us tA rej = Ok rA tA' -> stale_loop sc2 h us tB rej = Ok rB tB' ->
+  rA = rB /\ up_eq tA' tB'.
+Proof.
+  induction us as [|uuid us IH]; intros tA tB rej rA tA' rB tB' HU HmA HmB Hst; cbn [stale_loop].
+  - intros H1 H2. inversion H1; inversion H2; subst. auto.
+  - destruct HU as [Eu [Ea Et]]. pose proof (find_trk_nostamp (db_trks tA) (db_trks tB) uuid Et) as Hf.
+    destruct (find_trk (db_trks tA) uuid) as [kA|]; [|discriminate].
+    destruct (find_trk (db_trks tB) uuid) as [kB|]; [|contradiction]. rewrite Hf.
+    destruct (send_sound sc1 tA (t_penalty kA) HmA) as [RA [NA [MA [DA CA]]]].
+    destruct (send_sound sc2 tB (t_penalty kA) HmB) as [RB [NB [MB [DB CB]]]].
+    destruct (send_transaction sc1 tA (t_penalty kA)) as [sA tA1]. destruct (send_transaction sc2 tB (t_penalty kA)) as [sB tB1].
+    cbn [fst snd] in *.
+    assert (HR : status_rejected sB = status_rejected sA).
+    { rewrite RA, RB, (rejected_height_indep tB tA). apply Hst. }
+    destruct (db_of_eq_fields _ _ DA) as [A1 [A2 A3]]. destruct (db_of_eq_fields _ _ DB) as [B1 [B2 B3]].
+    assert (HU1 : up_eq tA1 tB1) by (unfold up_eq; rewrite A1, A2, A3, B1, B2, B3; auto).
+    assert (Hst1 : rej_stable tA1 sc1 sc2).
+    { intros tx. rewrite (rejected_height_indep tA1 tA), (rejected_height_indep tA1 tA (snd (script_get sc1 tx))). apply Hst. }
+    assert (Hset : forall hA hB, up_eq (set_trk_status tA1 uuid hA false) (set_trk_status tB1 uuid hB false)).
+    { intros hA hB. destruct HU1 as [U1 [U2 U3]]. unfold up_eq, set_trk_status. cbn [db_users db_apps db_trks set_db_trks].
+      repeat split; try assumption. apply set_status_nostamp. exact U3. }
+    assert (HmS : forall sc t hh, memo_sound sc t -> memo_sound sc (set_trk_status t uuid hh false)) by (intros sc t hh Hm; exact Hm).
+    assert (HstS : forall hh, rej_stable (set_trk_status tA1 uuid hh false) sc1 sc2) by (intros hh; exact Hst1).
+    destruct sA as [hA|hA| |cA]; [exfalso; exact (NA hA eq_refl)| | |];
+      destruct sB as [hB|hB| |cB]; try (exfalso; exact (NB hB eq_refl)); try discriminate HR;
+      intros H1 H2; try (eapply (IH _ _ _ _ _ _ _ (Hset _ _)); [apply HmS; exact MA|apply HmS; exact MB|apply HstS|exact H1|exact H2]).
+    eapply (IH _ _ _ _ _ _ _ HU1 MA MB Hst1 H1 H2).
+Qed.
+
+Lemma cc_reorged_nil le txids h : forall snap t comp c t',
+  reorged t = [] -> check_conf_loop le txids h snap t comp = Ok c t' -> reorged t' = [].
+Proof.
+  induction snap as [|k snap IH]; intros t comp c t' Hr; cbn [check_conf_loop]; [intros H; inversion H; subst; exact Hr|].
+  destruct (memN (t_penalty k) txids).
+  - destruct (find_trk (db_trks t) (trk_uuid k)); [|discriminate]. apply IH. cbn [reorged set_reorged set_trk_status set_db_trks]. rewrite Hr. reflexivity.
+  - rewrite Hr. cbn [mem_uuid existsb]. destruct (t_conf k); apply IH; exact Hr.
+Qed.
+
+Lemma refund_reorged : forall us t t', refund_loop t us = Ok tt t' -> reorged t' = reorged t.
+Proof.
+  induction us as [|uuid us IH]; intros t t'; cbn [refund_loop]; [intros H; inversion H; reflexivity|].
+  destruct (find_app _ _) as [a|]; [|discriminate]. destruct (gk_get _ _) as [ui|]; [|discriminate].
+  destruct (u32_add _ _) as [s|]; [|discriminate]. intros H. apply IH in H. exact H.
+Qed.
+
+Lemma delete_reorged t us r t' : gk_delete_appointments t us r = Ok tt t' -> reorged t' = reorged t.
+Proof.
+  unfold gk_delete_appointments. destruct r.
+  - destruct (refund_loop t us) as [[] t1|] eqn:E; cbn [bind]; [|discriminate]. intros H; inversion H; subst. apply refund_reorged in E. exact E.
+  - intros H; inversion H; reflexivity.
+Qed.
+
+Lemma memo_sound_frame sc t t' : car_memo t' = car_memo t -> memo_sound sc t -> memo_sound sc t'.
+Proof.
+  intros Hm Hs tx r Hr. rewrite Hm in Hr. destruct (Hs tx r Hr) as [H1 H2]. split; [rewrite H1; apply rejected_height_indep|exact H2].
+Qed.
+
+Lemma eng_memo t t' : eng t' = eng t -> car_memo t' = car_memo t.
+Proof. unfold eng. intros H. inversion H. reflexivity. Qed.
+
+Lemma delete_up_eq tA tB l : up_eq tA tB -> up_eq (db_delete_apps tA l) (db_delete_apps tB l).
+Proof.
+  intros [U1 [U2 U3]]. unfold up_eq, db_delete_apps. cbn [db_users db_apps db_trks set_db_apps set_db_trks].
+  rewrite U1, U2. repeat split. apply (filter_nostamp (fun u => negb (mem_uuid u l))). exact U3.
+Qed.
+
+(* THE RESPONDER'S PASS OF THE REPLAY.  Same tables, same gatekeeper map, same index and (empty) reorged set at its
+   start; the memos differ (which penalties each attempt submitted earlier in this block period) but are sound;
+   rejections are stable between the two scripts: the tables after the pass are equal up to the stamp of
+   unconfirmed trackers *)
+Theorem responder_replay le sc1 sc2 tA tB b h tA' tB' :
+  mem_eq tA tB -> reorged tA = [] -> r_index tB = r_index tA ->
+  memo_sound sc1 tA -> memo_sound sc2 tB -> rej_stable tA sc1 sc2 ->
+  r_block_connected le sc1 tA b h = Ok tt tA' -> r_block_connected le sc2 tB b h = Ok tt tB' ->
+  eq_up_to_stamp (db_of tB') (db_of tA').
+Proof.
+  intros HM Hre Hi HmA HmB Hst. unfold r_block_connected.
+  cbn [r_index set_car_height]. rewrite Hi.
+  destruct (ti_update (r_index tA) b) as [idx|]; [|discriminate].
+  set (tA1 := set_r_index (set_car_height tA h) idx). set (tB1 := set_r_index (set_car_height tB h) idx).
+  assert (HM1 : mem_eq tA1 tB1) by exact HM.
+  assert (Htr : db_trks tB1 = db_trks tA1) by (destruct HM as [Hd _]; apply (db_of_eq_fields _ _ Hd)).
+  rewrite Htr.
+  destruct (check_conf_loop le (keys_of (ib_data b)) h (db_trks tA1) tA1 []) as [cA tA2|] eqn:EA; cbn [bind]; [|discriminate].
+  destruct (check_conf_loop le (keys_of (ib_data b)) h (db_trks tA1) tB1 []) as [cB tB2|] eqn:EB; cbn [bind]; [|discriminate].
+  destruct (cc_sim le _ h _ _ _ _ _ _ _ _ HM1 EA EB) as [Ec [HM2 [GA2 GB2]]]. subst cB.
+  assert (Hre2 : reorged tA2 = []) by (eapply cc_reorged_nil; [|exact EA]; exact Hre).
+  (* the refund transaction *)
+  assert (HF : forall tA3 tB3,
+            (match cA with [] => Ok tt tA2 | _ :: _ => gk_delete_appointments tA2 cA true end) = Ok tt tA3 ->
+            (match cA with [] => Ok tt tB2 | _ :: _ => gk_delete_appointments tB2 cA true end) = Ok tt tB3 ->
+            mem_eq tA3 tB3 /\ car_memo tA3 = car_memo tA2 /\ car_memo tB3 = car_memo tB2 /\ reorged tA3 = []).
+  { intros tA3 tB3. destruct cA as [|c0 cs].
+    - intros H1 H2. inversion H1; inversion H2; subst. auto.
+    - intros H1 H2. destruct (delete_sim _ _ _ _ _ _ HM2 H1 H2) as [M [G1 G2]].
+      split; [exact M|]. split; [apply eng_memo; exact G1|]. split; [apply eng_memo; exact G2|].
+      rewrite (delete_reorged _ _ _ _ H1). exact Hre2. }
+  destruct (match cA with [] => Ok tt tA2 | _ :: _ => gk_delete_appointments tA2 cA true end) as [[] tA3|] eqn:FA; cbn [bind]; [|discriminate].
+  destruct (match cA with [] => Ok tt tB2 | _ :: _ => gk_delete_appointments tB2 cA true end) as [[] tB3|] eqn:FB; cbn [bind]; [|discriminate].
+  destruct (HF tA3 tB3 eq_refl eq_refl) as [HM3 [MA3 [MB3 Hre3]]].
+  destruct HM3 as [Hd3 [Hg3 Hr3]]. rewrite Hr3, Hre3. cbn [bind].
+  destruct (u32_sub h (Z.to_N Consts.CONFIRMATIONS_BEFORE_RETRY)) as [lim|]; [|discriminate].
+  destruct (db_of_eq_fields _ _ Hd3) as [E1 [E2 E3]]. rewrite E3.
+  set (stale := map trk_uuid (filter (fun k => negb (t_conf k) && N.leb (t_height k) lim) (db_trks tA3))).
+  assert (HU3 : up_eq tA3 tB3) by (unfold up_eq; rewrite E1, E2, E3; auto).
+  assert (HmA3 : memo_sound sc1 tA3).
+  { apply (memo_sound_frame sc1 tA tA3); [|exact HmA]. rewrite MA3, (eng_memo _ _ GA2). reflexivity. }
+  assert (HmB3 : memo_sound sc2 tB3).
+  { apply (memo_sound_frame sc2 tB tB3); [|exact HmB]. rewrite MB3, (eng_memo _ _ GB2). reflexivity. }
+  assert (Hst3 : rej_stable tA3 sc1 sc2).
+  { intros tx. rewrite (rejected_height_indep tA3 tA), (rejected_height_indep tA3 tA (snd (script_get sc1 tx))). apply Hst. }
+  destruct (stale_loop sc1 h stale tA3 []) as [rA tA5|] eqn:SA; cbn [bind]; [|discriminate].
+  destruct (stale_loop sc2 h stale tB3 []) as [rB tB5|] eqn:SB; cbn [bind]; [|discriminate].
+  destruct (stale_sim sc1 sc2 h stale tA3 tB3 [] rA tA5 rB tB5 HU3 HmA3 HmB3 Hst3 SA SB) as [Er HU5]. subst rB.
+  cbn [List.app].
+  assert (HD : forall tA6 tB6,
+            (match rA with [] => Ok tt tA5 | p :: l0 => gk_delete_appointments tA5 (p :: l0) false end) = Ok tt tA6 ->
+            (match rA with [] => Ok tt tB5 | p :: l0 => gk_delete_appointments tB5 (p :: l0) false end) = Ok tt tB6 ->
+            up_eq tA6 tB6).
+  { intros tA6 tB6. destruct rA as [|r0 rs]; intros H1 H2; inversion H1; inversion H2; subst; [exact HU5|].
+    apply delete_up_eq. exact HU5. }
+  destruct (match rA with [] => Ok tt tA5 | p :: l0 => gk_delete_appointments tA5 (p :: l0) false end) as [[] tA6|] eqn:DA; cbn [bind]; [|discriminate].
+  destruct (match rA with [] => Ok tt tB5 | p :: l0 => gk_delete_appointments tB5 (p :: l0) false end) as [[] tB6|] eqn:DB; cbn [bind]; [|discriminate].
+  specialize (HD tA6 tB6 eq_refl eq_refl). destruct HD as [U1 [U2 U3]].
+  intros H1 H2. inversion H1; inversion H2; subst.
+  unfold eq_up_to_stamp, db_nostamp, db_of. cbn [d_users d_apps d_trks db_users db_apps db_trks set_car_memo].
+  rewrite U1, U2, U3. reflexivity.
+Qed.
